@@ -235,7 +235,7 @@ class MappedDFTKernel2(KernelEvalBase2, XCEvalSerializable):
             f = f.reshape(X0T.shape[0], -1)
             df = df.reshape(X0T.shape[0], -1, self.N1)
         if rhocut > 0:
-            cond = rho_tuple[0] < rhocut
+            cond = rho_tuple[0].shape[0] * rho_tuple[0] < rhocut
             if self.mode == "SEP":
                 f[cond] = 0.0
                 df[cond] = 0.0
@@ -243,7 +243,7 @@ class MappedDFTKernel2(KernelEvalBase2, XCEvalSerializable):
                 scond = rho_tuple[0].sum(0) < rhocut
                 f[scond] = 0.0
                 if self.mode == "POL":
-                    df[cond, :] = 0.0
+                    df[cond | scond, :] = 0.0
                 else:
                     df[scond, :] = 0.0
         self.apply_libxc_baseline_(f, df, rho_tuple, vrho_tuple)
